@@ -75,6 +75,13 @@ def _gen_spec(rnd):
     return {"species": species, "x0": x0, "params": params, "reactions": rx, "rules": rules}
 
 
+SANITIZE_TIERS = ("thorough",)
+
+
+def sanitize_subset(cases):
+    return cases[:50] + [c for c in cases if c["kind"] == "results"][:10]
+
+
 def generate(tier, seed):
     rnd = util.rng(PROPERTY, tier, seed, "cases")
     n = 200 if tier == "quick" else 2500
